@@ -122,6 +122,7 @@ class Extractor:
         self.size_of = {}           # member key -> ('item', k) established via resize / size()
         self.params = {p["n"]: p for p in fn["params"]}
         self.const_local = {}
+        self.members_via_locals = set()   # members filled from / iterated through locals tied to items
 
     # ---- event recognition -------------------------------------------------
     def is_stream(self, e, cls):
@@ -137,7 +138,21 @@ class Extractor:
         if C.is_call(x, name="write", cls="RestartWriter") and len(x["a"]) == 1:
             a = x["a"][0]
             t = x.get("targs") or C.strip_casts(a).get("t", "")
-            return Item("prim", type=t.replace("const ", ""), key=lv_key(a), src=a, line=x.get("l"))
+            key = lv_key(a)
+            root = key
+            while root is not None and root[0] in ("f", "elem", "call"):
+                root = root[1]
+            if root is not None and root[0] == "local":
+                d = self.locals.get(root[1])
+                if d and d[0] == "expr":
+                    de = C.strip_casts(d[1])
+                    while de is not None and de.get("k") == "Ctor" and len(de["a"]) == 1:
+                        de = C.strip_casts(de["a"][0])
+                    if C.is_call(de) and de.get("n") in ("begin", "cbegin") and de.get("obj") is not None:
+                        ck = lv_key(de["obj"])
+                        if key_root_member(ck):
+                            self.members_via_locals.add(key_root_member(ck))
+            return Item("prim", type=t.replace("const ", ""), key=key, src=a, line=x.get("l"))
         if C.is_call(x) and x.get("n") in ("write_restart_file", "write_restart_info"):
             args = x["a"]
             if any(self.is_stream(a, "RestartWriter") for a in args):
@@ -387,6 +402,10 @@ class Extractor:
                     if C.is_call(se, name="size") and se.get("obj") is not None:
                         self.size_of[lv_key(se["obj"])] = ("item", it.index)
         else:
+            if dest is not None and key_root_member(dest) and not evs and e.get("k") in ("Bin", "Call"):
+                rhs = e.get("b") if e.get("k") == "Bin" else (e["a"][0] if e["a"] else None)
+                if rhs is not None and self.canon(rhs).startswith("item"):
+                    self.members_via_locals.add(key_root_member(dest))
             # reader: v.resize(local read as item k)  /  v = new T[local]
             if C.is_call(e, name="resize") and e.get("obj") is not None and e["a"]:
                 c = self.canon(e["a"][0])
